@@ -34,6 +34,9 @@ pub enum FsEvent {
 
 #[derive(Default)]
 pub struct FsState {
+    /// Run-private scratch root: decisions and log lines name files relative
+    /// to it, so that they do not depend on the process that runs them.
+    pub root: PathBuf,
     /// Everything the code under test was given, in order.
     pub log: Vec<FsEvent>,
     /// Replay mode: serve these instead of touching the disk.
@@ -73,6 +76,14 @@ impl FsState {
     pub fn take_log(&mut self) -> Vec<FsEvent> {
         std::mem::take(&mut self.log)
     }
+}
+
+fn entity_of(path: &Path) -> String {
+    let root = world::with(|w| w.fs.root.clone());
+    path.strip_prefix(&root)
+        .unwrap_or(path)
+        .to_string_lossy()
+        .to_string()
 }
 
 async fn latency(site: &str, entity: &str) {
@@ -126,7 +137,7 @@ impl ReadDir {
 /// Real or injected I/O errors.
 pub async fn read_dir(path: impl AsRef<Path>) -> io::Result<ReadDir> {
     let dir = path.as_ref().to_path_buf();
-    let entity = dir.to_string_lossy().to_string();
+    let entity = entity_of(&dir);
     latency("fs.list_delay", &entity).await;
     let outcome = world::with(|w| {
         if w.fs.replaying {
@@ -202,7 +213,7 @@ fn describe_list(o: &FsOutcome<Vec<PathBuf>>) -> String {
 /// Real or injected I/O errors, `InvalidData` for non-UTF-8 content.
 pub async fn read_to_string(path: impl AsRef<Path>) -> io::Result<String> {
     let path = path.as_ref().to_path_buf();
-    let entity = path.to_string_lossy().to_string();
+    let entity = entity_of(&path);
     latency("fs.read_delay", &entity).await;
     let outcome = world::with(|w| {
         if w.fs.replaying {
